@@ -1,4 +1,234 @@
-/- driver stub (Life): replaced by the owner of this model group -/
+/- driver for the lifecycle model (C11).  One line in, one line out.
+
+   exec <world> <op> <events>
+     world  := <n> dir*            dir := <proj> <id> <optc> <optc> <ns> (x<hexname> <c>)* <ne> (x<hexpath> (F x<hex> | D))*
+     optc   := - | <c>             c   := K <wire JSON value> | J x<hex bytes>
+     op     := init <p> <value> <T|F>
+             | rekey <p> <old id> <value>
+             | move <p> <id> <q>
+             | clone <p> <id> <q> <refs> | remove <p> <id> <refs> | clear <p> <id> <refs>
+     refs   := <n> (s | b | t x<hexname> | f x<hexpath> | d x<hexpath>)*
+     events := <n> (<step> F <errno> | <step> C | <step> T <bytes>)*
+   answer:  ev <events as given>|<result>|<step>,<step>,…|<dir>;<dir>;…|<ids check() reports in project 0>|<… project 1>
+-/
+import Signac.Json
+import Signac.Md5
 import Signac.Wire
-open Signac
-def main : IO Unit := driverLoop (fun _ => "bad-op")
+import Signac.Lifecycle
+open Signac Signac.Life
+
+def jcodec : Codec JVal := { hash := calcId, text := fun v => String.ofList (dumpChars v) }
+
+def unx (t : String) : Option String :=
+  match t.toList with
+  | 'x' :: rest => unhex (String.ofList rest)
+  | _ => none
+
+abbrev P (α : Type) := List String → Option (α × List String)
+
+def pNat : P Nat
+  | t :: ts => t.toNat?.map (·, ts)
+  | [] => none
+
+def pStr : P String
+  | t :: ts => (unx t).map (·, ts)
+  | [] => none
+
+def pContent : P (Content JVal)
+  | "K" :: ts => (parseValue ts).map (fun (v, r) => (.ok v, r))
+  | "J" :: t :: ts => (unx t).map (fun s => (.junk s, ts))
+  | _ => none
+
+def pOptContent : P (Option (Content JVal))
+  | "-" :: ts => some (none, ts)
+  | ts => (pContent ts).map (fun (c, r) => (some c, r))
+
+def pMany {α} (p : P α) : Nat → P (List α)
+  | 0, ts => some ([], ts)
+  | n + 1, ts => do
+    let (x, r) ← p ts
+    let (xs, r') ← pMany p n r
+    pure (x :: xs, r')
+
+def pCounted {α} (p : P α) : P (List α) := fun ts => do
+  let (n, r) ← pNat ts
+  pMany p n r
+
+def pStray : P (String × Content JVal) := fun ts => do
+  let (n, r) ← pStr ts
+  let (c, r') ← pContent r
+  pure ((n, c), r')
+
+def pEntry : P (String × Option String) := fun ts => do
+  let (p, r) ← pStr ts
+  match r with
+  | "F" :: t :: r' => (unx t).map (fun b => ((p, some b), r'))
+  | "D" :: r' => some ((p, none), r')
+  | _ => none
+
+def pDir : P (Key × JobDir JVal) := fun ts => do
+  let (p, r) ← pNat ts
+  match r with
+  | id :: r =>
+    let (sp, r) ← pOptContent r
+    let (bak, r) ← pOptContent r
+    let (strays, r) ← pCounted pStray r
+    let (entries, r) ← pCounted pEntry r
+    pure (((p, id), { sp := sp, bak := bak, strays := strays, entries := entries }), r)
+  | [] => none
+
+def pRef : P Ref
+  | "s" :: ts => some (.sp, ts)
+  | "b" :: ts => some (.bak, ts)
+  | "t" :: t :: ts => (unx t).map (fun s => (.stray s, ts))
+  | "f" :: t :: ts => (unx t).map (fun s => (.file s, ts))
+  | "d" :: t :: ts => (unx t).map (fun s => (.dir s, ts))
+  | _ => none
+
+def pErrno : String → Option Errno
+  | "EIO" => some .EIO | "ENOSPC" => some .ENOSPC | "EACCES" => some .EACCES | "EXDEV" => some .EXDEV
+  | "EROFS" => some .EROFS | "ENOENT" => some .ENOENT | "EEXIST" => some .EEXIST | "ENOTEMPTY" => some .ENOTEMPTY
+  | _ => none
+
+def pEvent : P (Nat × Ev) := fun ts => do
+  let (k, r) ← pNat ts
+  match r with
+  | "F" :: e :: r' => (pErrno e).map (fun e => ((k, .fault e), r'))
+  | "C" :: r' => some ((k, .crash), r')
+  | "T" :: r' => do
+    let (t, r'') ← pNat r'
+    pure ((k, .torn t), r'')
+  | _ => none
+
+def pBool : P Bool
+  | "T" :: ts => some (true, ts)
+  | "F" :: ts => some (false, ts)
+  | _ => none
+
+/-- the operation and the keys it may create -/
+def pOp : P (Op JVal × List Key) := fun ts =>
+  match ts with
+  | "init" :: r => do
+    let (p, r) ← pNat r
+    let (v, r) ← parseValue r
+    let (f, r) ← pBool r
+    pure ((.init (p, calcId v) v f, [(p, calcId v)]), r)
+  | "rekey" :: r => do
+    let (p, r) ← pNat r
+    match r with
+    | old :: r =>
+      let (v, r) ← parseValue r
+      pure ((.rekey (p, old) (p, calcId v) v, [(p, old), (p, calcId v)]), r)
+    | [] => none
+  | "move" :: r => do
+    let (p, r) ← pNat r
+    match r with
+    | id :: r =>
+      let (q, r) ← pNat r
+      pure ((.move (p, id) (q, id), [(p, id), (q, id)]), r)
+    | [] => none
+  | "clone" :: r => do
+    let (p, r) ← pNat r
+    match r with
+    | id :: r =>
+      let (q, r) ← pNat r
+      let (refs, r) ← pCounted pRef r
+      pure ((.clone (p, id) (q, id) refs, [(p, id), (q, id)]), r)
+    | [] => none
+  | "remove" :: r => do
+    let (p, r) ← pNat r
+    match r with
+    | id :: r =>
+      let (refs, r) ← pCounted pRef r
+      pure ((.remove (p, id) refs, [(p, id)]), r)
+    | [] => none
+  | "clear" :: r => do
+    let (p, r) ← pNat r
+    match r with
+    | id :: r =>
+      let (refs, r) ← pCounted pRef r
+      pure ((.clear (p, id) refs, [(p, id)]), r)
+    | [] => none
+  | _ => none
+
+def worldOf (dirs : List (Key × JobDir JVal)) : World JVal :=
+  fun k => (dirs.find? (fun kd => kd.1 = k)).map (·.2)
+
+def evOf (evs : List (Nat × Ev)) : Nat → Option Ev :=
+  fun n => (evs.find? (fun ke => ke.1 = n)).map (·.2)
+
+/- ---- rendering ---- -/
+def keyPath (k : Key) : String := "P" ++ toString k.1 ++ "/" ++ k.2
+
+def refPath (k : Key) (r : Ref) : String := keyPath k ++ "/" ++ r.path
+
+def blen (c : Content JVal) : String := toString (c.bytes jcodec).utf8ByteSize
+
+def renderStep : Step JVal → String
+  | .mkdir k => "mkdir " ++ keyPath k
+  | .tmpOpen k n => "open " ++ keyPath k ++ "/._TMP_" ++ n ++ " w"
+  | .tmpWrite k n c => "write " ++ keyPath k ++ "/._TMP_" ++ n ++ " " ++ blen c
+  | .tmpCommit k n => "replace " ++ keyPath k ++ "/._TMP_" ++ n ++ " " ++ keyPath k ++ "/" ++ n
+  | .spToBak k => "replace " ++ refPath k .sp ++ " " ++ refPath k .bak
+  | .bakToSp k => "replace " ++ refPath k .bak ++ " " ++ refPath k .sp
+  | .rmBak k => "remove " ++ refPath k .bak
+  | .rmSp k => "remove " ++ refPath k .sp
+  | .renameDir a b => "replace " ++ keyPath a ++ " " ++ keyPath b
+  | .rmItem k (.dir p) => "rmdir " ++ keyPath k ++ "/" ++ p
+  | .rmItem k r => "remove " ++ refPath k r
+  | .rmJobDir k => "rmdir " ++ keyPath k
+  | .cpMkdir k p => if p = "" then "mkdir " ++ keyPath k else "mkdir " ++ keyPath k ++ "/" ++ p
+  | .cpOpen k r => "open " ++ refPath k r ++ " w"
+  | .cpWrite k r c => "write " ++ refPath k r ++ " " ++ blen c
+
+def renderContent : Content JVal → String
+  | .ok v => "K" ++ toHex (String.ofList (dumpChars v))
+  | .junk s => "J" ++ toHex s
+
+def renderOpt : Option (Content JVal) → String
+  | none => "-"
+  | some c => renderContent c
+
+def sortStrs (xs : List String) : List String := xs.mergeSort (fun a b => decide (a ≤ b))
+
+def renderDir (k : Key) (d : JobDir JVal) : String :=
+  keyPath k ++ "{S=" ++ renderOpt d.sp ++ " B=" ++ renderOpt d.bak ++ " T=" ++
+    ",".intercalate (sortStrs (d.strays.map (fun nc => nc.1 ++ ":" ++ renderContent nc.2))) ++ " E=" ++
+    ",".intercalate (sortStrs (d.entries.map (fun pb => pb.1 ++ ":" ++
+      (match pb.2 with | none => "D" | some b => "F" ++ toHex b)))) ++ "}"
+
+def dedupKeys : List Key → List Key
+  | [] => []
+  | k :: ks => if ks.contains k then dedupKeys ks else k :: dedupKeys ks
+
+def renderWorld (w : World JVal) (keys : List Key) : String :=
+  ";".intercalate (sortStrs (keys.filterMap (fun k => (w k).map (renderDir k))))
+
+def renderRes : Res → String
+  | .ok => "ok"
+  | .exc n => "exc:" ++ n
+  | .crashed => "crashed"
+
+def renderCheck (w : World JVal) (keys : List Key) (p : Nat) : String :=
+  ",".intercalate (sortStrs (check jcodec w p ((keys.filter (fun k => k.1 = p ∧ (w k).isSome)).map (·.2))))
+
+def stepLife (line : String) : String :=
+  match tokens line with
+  | "exec" :: ts =>
+    match pCounted pDir ts with
+    | none => "bad-value"
+    | some (dirs, r) =>
+      match pOp r with
+      | none => "bad-op"
+      | some ((op, opKeys), r) =>
+        match pCounted pEvent r with
+        | some (evs, []) =>
+          let w := worldOf dirs
+          let keys := dedupKeys (dirs.map (·.1) ++ opKeys)
+          let out := run jcodec (evOf evs) (op.prog jcodec) w
+          "ev " ++ " ".intercalate r ++ "|" ++ renderRes out.res ++ "|" ++ ",".intercalate (out.acc.trace.reverse.map renderStep) ++ "|" ++
+            renderWorld out.w keys ++ "|" ++ renderCheck out.w keys 0 ++ "|" ++ renderCheck out.w keys 1
+        | _ => "bad-value"
+  | _ => "bad-op"
+
+def main : IO Unit := driverLoop stepLife
